@@ -38,11 +38,27 @@ fn top(w: (u32, u32, u32, u32)) -> impl Strategy<Value = TOp> {
     ]
 }
 
+/// like `top`, plus pushes into another logical thread's local queue (what task submitters do)
+fn top_foreign() -> impl Strategy<Value = TOp> {
+    prop_oneof![
+        4 => (0u8..4).prop_map(TOp::LPush),
+        5 => Just(TOp::LPop),
+        2 => (0u8..4).prop_map(TOp::SPush),
+        2 => Just(TOp::SPop),
+        5 => (0u8..3, 0u8..4).prop_map(|(d, p)| TOp::FPush(d, p)),
+    ]
+}
+
 fn case_mt(max_ops: usize, max_threads: usize) -> impl Strategy<Value = Case> {
+    case_mt_with(max_ops, max_threads, false)
+}
+
+/// `foreign`: threads also push into each other's local queues
+fn case_mt_with(max_ops: usize, max_threads: usize, foreign: bool) -> impl Strategy<Value = Case> {
     (
         any::<bool>(),
         prop_oneof![Just(1u8), Just(2u8), Just(3u8), Just(4u8), Just(8u8)],
-        proptest::collection::vec(proptest::collection::vec(top((5, 5, 3, 3)), 1..=max_ops), 2..=max_threads),
+        proptest::collection::vec(proptest::collection::vec(if foreign { top_foreign().boxed() } else { top((5, 5, 3, 3)).boxed() }, 1..=max_ops), 2..=max_threads),
         proptest::collection::vec(any::<u8>(), 0..400),
         proptest::collection::vec(any::<u16>(), 0..6),
         proptest::collection::vec(prop_oneof![9 => Just(false), 1 => Just(true)], 0..12),
@@ -95,7 +111,7 @@ fn kind(c: &Case) -> &'static str {
 /// C03 oracle over one execution.
 fn judge_c03(c: &Case, out: &RunOut) -> Outcome {
     let k = kind(c);
-    let nt = out.counters.stale_stores >= 1 || out.counters.steals_ok >= 1 || out.overflowed || out.switches >= 4;
+    let nt = out.counters.stale_stores >= 1 || out.counters.steals_ok >= 1 || out.overflowed || out.switches >= 4 || out.foreign_pushes >= 1;
     let mut o = Outcome::pass()
         .nt(nt)
         .class_if(out.counters.stale_stores >= 1, "foreign-store-between-load-and-store")
@@ -105,6 +121,14 @@ fn judge_c03(c: &Case, out: &RunOut) -> Outcome {
         .class_if(out.switches >= 4, "4+context-switches")
         .class_if(c.ordered, "ordered-queue")
         .class_if(!c.ordered, "plain-queue");
+    o = o.class_if(out.foreign_pushes >= 1, "push-into-another-threads-local-queue").class_if(out.lock_contended >= 1, "owner-lock-contended");
+    if out.owner_overlaps > 0 {
+        o.set_fail(
+            format!("C03/{k}/two-owners-of-one-ring-at-once"),
+            format!("{} owner operations (push / pop / steal-into) of one local ring overlapped; the ring supports one owner at a time, in the real ring this loses or duplicates items ({} pushes went into another thread's local queue)", out.owner_overlaps, out.foreign_pushes),
+        );
+        return o;
+    }
     if let Some((t, op, what)) = &out.panic {
         if what == "budget" {
             // non-termination is C04's property; do not judge conservation of a cut run
@@ -279,6 +303,14 @@ fn main_c03(args: &Args) -> i32 {
         || case_mt(8, 3),
         |c| {
             let out = run::run_case(c, 20_000, None);
+            judge_c03(c, &out)
+        },
+    ));
+    ev.add(vkit::run_prop(
+        &cfg("submitters", "as `sched`, but the threads also push into each other's local queues (what task submitters do to a pool's queue); the ring shim counts owner operations (push, pop, steal-into) of one ring that overlap -- the ring supports one owner at a time; non-trivial as above or a push into another thread's queue", args.cases(8_000, 300_000)),
+        || case_mt_with(8, 3, true),
+        |c| {
+            let out = run::run_case(c, 60_000, None);
             judge_c03(c, &out)
         },
     ));
